@@ -784,6 +784,45 @@ pub fn run(prop: &str, tier: &str, seed: u64) -> Report {
         total.merge(r);
         total.require("histories with a failed sealing step conform", (nf * 6 / 2) as u64);
     }
+    // caller-supplied exp / nbf / iat in UNUSUAL spellings that the typed constructors nevertheless accept on this tree (ISO 8601
+    // forms outside RFC 3339: hour 24, basic format, ordinal and week dates, day 30 of February, a leap second, many fraction
+    // digits ...): what the constructor accepted is the caller's value, and the token must carry it like any other
+    if prop == "C13" {
+        let mut ru = Report::new();
+        let exotic = [
+            "2031-12-31T24:00:00Z", "2031-12-31T24:00:00+00:00", "2031-02-30T00:00:00Z", "2031-04-31T12:00:00+02:00", "20311231T120000Z", "2031-365T00:00:00Z", "2031-366T00:00:00Z", "2031-W52-7T00:00:00Z",
+            "2031-12-31T23:59:60Z", "2031-12-31T23:59:59.123456789012345678Z", "2031-12-31T23:59Z", "2031-12-31T23Z", "2031-12-31", "2031-12-31T23:59:59", "2031-12-31T23:59:59+14:00", "2031-12-31T23:59:59-12:00",
+            "2031-12-31T23:59:59,5Z", "2031-12-31t23:59:59z", "2031-12-31 23:59:59Z", "+002031-12-31T23:59:59Z", "9999-12-31T23:59:59Z", "0000-01-01T00:00:00Z", "2031-12-31T23:59:59+0000", "2031-12-31T23:59:59+00",
+        ];
+        for which in ["exp", "nbf", "iat"] {
+            for text in exotic {
+                if !time_claim_accepted(which, text) {
+                    ru.count("unusual time spelling refused by the constructor (no case)");
+                    continue;
+                }
+                ru.see("unusual time spellings accepted by the constructors", &format!("{} {}", which, text));
+                let claim = match which {
+                    "exp" => Claim::Exp(text.to_string()),
+                    "nbf" => Claim::Nbf(text.to_string()),
+                    _ => Claim::Iat(text.to_string()),
+                };
+                for (wi, tail) in [vec![BOp::Build], vec![BOp::Footer("f".into()), BOp::Build, BOp::Build], vec![BOp::Set(Claim::Iss("i".into())), BOp::Build]].into_iter().enumerate() {
+                    for &p in &[P::V4L, P::V2L, P::V4P, P::V3L][..if wi == 0 { 4 } else { 1 }] {
+                        let mut ops = vec![BOp::Set(claim.clone())];
+                        ops.extend(tail.iter().cloned());
+                        let c = Case { p, key: pools.key(p, 0), ops };
+                        let before = ru.violations_total;
+                        judge(prop, &c, &mut ru);
+                        if ru.violations_total == before {
+                            ru.count("unusual accepted time spellings arrive in the token");
+                        }
+                    }
+                }
+            }
+        }
+        ru.require("unusual accepted time spellings arrive in the token", 30);
+        total.merge(ru);
+    }
     // different keys that collide under common hashes / truncations are NOT a repetition (C17), and both must arrive (C13: n/a)
     if prop == "C17" {
         let mut rc = Report::new();
@@ -987,5 +1026,5 @@ pub fn replay_pair(prop: &str, case: &Value) -> Report {
     r
 }
 
-pub const RULE_C13: &str = "call words over {set exp, set nbf, set iat, set iss, set custom a, set custom 'Exp' / 'IAT' / 'Nbf' (custom claims that equal a time claim up to case), an attempt to set a custom claim named exactly exp (null) or nbf (refused by the constructor in both forms: must leave no trace), acknowledge, set_footer, set_implicit_assertion, build} (a final build is appended to words that do not end in one): ALL words up to length 4 (thorough 6) on v4.local, seeded random words up to length 12 on all 8 protocols; plus 614 (thorough 20014) builders created at instants of a VIRTUAL clock (hook verif::set_now: year/leap-day boundaries, the last and first second of a minute / hour / day / month / year, 2^31 s, the i64-ns limit, up to year 8999, random, odd sub-second parts) whose defaults must be exactly (now+1h, now, now). Plus 3000 (thorough 40000) PAIRS of builders (same or different protocols) alive at once on one thread with their operations interleaved in a seeded order: each must behave exactly as if it were alone. Plus 4000 (thorough 60000) barrier-released ROUNDS of up to 8 builders on DIFFERENT threads at once (custom claim names new to the process in every round, shared by the threads of the round), each judged as if alone. Plus histories in which one build FAILS IN THE SEALING STEP (unusable private-key material / injected RNG failure through the hook verif::set_rng_fault; no verdict on that build) and the builds that follow are judged like any other. Every token of every successful build (first and later builds of one builder) is read back and compared with a state machine written from the property: exp present iff not acknowledged; default exp == creation + 3600.000000000 s, default iat == default nbf within the clock bracket taken around the run (5 ms slack); caller-supplied exp/iat/nbf values present. distinct_nontrivial = distinct (protocol, word, build number) that built and conformed; caller-supplied instants lie on both sides of the creation time and of creation + 1 h";
+pub const RULE_C13: &str = "call words over {set exp, set nbf, set iat, set iss, set custom a, set custom 'Exp' / 'IAT' / 'Nbf' (custom claims that equal a time claim up to case), an attempt to set a custom claim named exactly exp (null) or nbf (refused by the constructor in both forms: must leave no trace), acknowledge, set_footer, set_implicit_assertion, build} (a final build is appended to words that do not end in one): ALL words up to length 4 (thorough 6) on v4.local, seeded random words up to length 12 on all 8 protocols; plus 614 (thorough 20014) builders created at instants of a VIRTUAL clock (hook verif::set_now: year/leap-day boundaries, the last and first second of a minute / hour / day / month / year, 2^31 s, the i64-ns limit, up to year 8999, random, odd sub-second parts) whose defaults must be exactly (now+1h, now, now). Plus 3000 (thorough 40000) PAIRS of builders (same or different protocols) alive at once on one thread with their operations interleaved in a seeded order: each must behave exactly as if it were alone. Plus 4000 (thorough 60000) barrier-released ROUNDS of up to 8 builders on DIFFERENT threads at once (custom claim names new to the process in every round, shared by the threads of the round), each judged as if alone. Plus histories in which one build FAILS IN THE SEALING STEP (unusable private-key material / injected RNG failure through the hook verif::set_rng_fault; no verdict on that build) and the builds that follow are judged like any other. Every token of every successful build (first and later builds of one builder) is read back and compared with a state machine written from the property: exp present iff not acknowledged; default exp == creation + 3600.000000000 s, default iat == default nbf within the clock bracket taken around the run (5 ms slack); caller-supplied exp/iat/nbf values present - also in ~24 unusual spellings outside RFC 3339 (hour 24, basic format, ordinal / week dates, 30 February, leap second, 18 fraction digits ...) for which the typed constructor is first probed: what it accepts must arrive in the token. distinct_nontrivial = distinct (protocol, word, build number) that built and conformed; caller-supplied instants lie on both sides of the creation time and of creation + 1 h";
 pub const RULE_C17: &str = "call words over {set_claim(k) for k in exp,nbf,iat,iss,sub,aud,jti,a,b,userId,Role,role; acknowledge; set_footer; build} (a final build appended): ALL words up to length 4 (thorough 5) on v4.local, seeded random words up to length 40 on all 8 protocols; 3000 (thorough 40000) PAIRS of builders (same or different protocols) alive at once on one thread with their operations interleaved in a seeded order, each judged as if alone; 4000 (thorough 60000) barrier-released ROUNDS of up to 8 builders on DIFFERENT threads at once (custom claim names new to the process in every round, shared by the threads of the round; half of the setters are custom claims), each judged as if alone; histories in which one build fails in the sealing step (unusable private-key material / injected RNG failure; no verdict on that build) and the following builds are judged like any other; every occurrence of a setter uses a different value. Plus ~45 pairs of DIFFERENT custom keys that collide under FNV-1/1a, the 31-multiplier hash, djb2, CRC-32, byte sums, truncation (8..256 bytes, u8/u16 characters), NFC/NFD or an embedded NUL: setting both is not a repetition, setting one of them again is; 255/256/257/600 distinct keys on one builder, then one of them again. Model: once any key has been supplied twice every build must fail with the duplicate-claim error naming one of the duplicated keys; otherwise every build must succeed and carry the caller's values; exp supplied after the acknowledgement may be refused as duplicate or ignored. distinct_nontrivial = distinct (protocol, word, build number, outcome class)";
